@@ -167,9 +167,7 @@ def _get_aliases(result_types: dict, package_name: str) -> dict[str, set[str]]:
                     ):
                         fullname = key.node.target.type.fullname
                     elif isinstance(type_value, mypy_types.CallableType):
-                        bound_args = type_value.bound_args
-                        if bound_args and hasattr(bound_args[0], "type"):
-                            fullname = bound_args[0].type.fullname  # type: ignore[union-attr]
+                        fullname = _get_class_fullname_of_callable(type_value)
                     elif hasattr(key, "node") and isinstance(key.node, mypy_nodes.Var):
                         fullname = key.node.fullname
 
@@ -186,8 +184,8 @@ def _get_aliases(result_types: dict, package_name: str) -> dict[str, set[str]]:
                     continue
 
             if in_package:
-                if isinstance(type_value, mypy_types.CallableType) and hasattr(type_value.bound_args[0], "type"):
-                    fullname = type_value.bound_args[0].type.fullname  # type: ignore[union-attr]
+                if isinstance(type_value, mypy_types.CallableType) and _get_class_fullname_of_callable(type_value):
+                    fullname = _get_class_fullname_of_callable(type_value)
                 elif isinstance(type_value, mypy_types.Instance):
                     fullname = type_value.type.fullname
                 elif isinstance(key, mypy_nodes.TypeVarExpr):
@@ -200,3 +198,15 @@ def _get_aliases(result_types: dict, package_name: str) -> dict[str, set[str]]:
                 aliases[name].add(fullname)
 
     return aliases
+
+
+def _get_class_fullname_of_callable(type_value: mypy_types.CallableType) -> str:
+    """Return the qualified name of the class a callable type constructs, or an empty string for plain functions."""
+    # Older mypy versions store the class in "bound_args", newer ones don't have this attribute anymore
+    bound_args = getattr(type_value, "bound_args", None)
+    if bound_args and hasattr(bound_args[0], "type"):
+        return bound_args[0].type.fullname
+
+    if type_value.is_type_obj():
+        return type_value.type_object().fullname
+    return ""
